@@ -1,4 +1,4 @@
-CONSTANTS MaxN = 2 MaxDepth = 4 Lat <- MCLat
+CONSTANTS MaxN = 2 MaxDepth = 3 Lat <- MCLat DKs <- MCDKsQuick
 INIT Init
 NEXT Next
 INVARIANT InBounds
